@@ -352,12 +352,22 @@ pub struct TsProfile {
     pub windows: bool,
     pub non_exact_count_windows: bool,
     pub reorder_only: bool,
+    /// a chain of single-replica blocks fed by ONE source replica that runs several iterations
+    /// (sound: no other replica can run ahead into the next iteration)
+    pub single_replica_iterations: bool,
 }
 
 pub fn gen_job(ch: &mut Chooser, p: &TsProfile) -> TsJob {
     let mut next_id = 0;
-    let o = ScriptOpts { max_replicas: 5, max_iterations: 1, max_len: 40, non_negative: false, styles: [6, 1, 1, 1], min_len: 0, wm_weight: 3 };
-    let source = gen_source(ch, &o, &mut next_id);
+    let o = if p.single_replica_iterations {
+        ScriptOpts { max_replicas: 1, max_iterations: 3, max_len: 30, non_negative: false, styles: [8, 1, 0, 1], min_len: 0, wm_weight: 3 }
+    } else {
+        ScriptOpts { max_replicas: 5, max_iterations: 1, max_len: 40, non_negative: false, styles: [6, 1, 1, 1], min_len: 0, wm_weight: 3 }
+    };
+    let mut source = gen_source(ch, &o, &mut next_id);
+    if p.single_replica_iterations {
+        source.repl = Repl::One;
+    }
     let mut stages = Vec::new();
     let n = 1 + ch.below(6);
     let mut timestamped = true;
@@ -365,7 +375,10 @@ pub fn gen_job(ch: &mut Chooser, p: &TsProfile) -> TsJob {
         if ch.exhausted() {
             break;
         }
-        let w = if p.reorder_only {
+        let w = if p.single_replica_iterations {
+            // only stages that keep everything on one replica
+            [3u32, 2, 1, 0, 0, 3, 2, 6, 1, 0, 0, 0, 0, 1]
+        } else if p.reorder_only {
             [2u32, 1, 0, 3, 2, 1, 2, 8, 0, 0, 0, 0, 2, 0]
         } else {
             [3, 2, 1, 4, 3, 2, 2, 3, 2, 2, if p.windows { 2 } else { 0 }, if p.windows { 3 } else { 0 }, 3, 1]
